@@ -40,7 +40,7 @@ ASSUMPTIONS = ["trusted base: CPython datetime/zoneinfo and the tz files",
 
 W_PROBES = ("start-1us", "start", "start+1us", "middle", "end-1us", "end")
 PATHS = ("create", "convert", "convert_pd", "tzdatetime", "set", "at", "on", "replace", "replace_fold", "parse", "local",
-         "instance_naive")
+         "instance_naive", "set_sub", "set_time")
 ZONES = set()
 
 
@@ -335,6 +335,22 @@ def run(M, c):
             eff_r = False
             base = DateTime(2001, 2, 3, *F[3:], tzinfo=tz, fold=f)
             ret = base.on(*F[:3])
+        elif path in ("set_sub", "set_time"):
+            # only the sub-minute (or the hour/minute) fields are given: the instance is a valid local time in the same
+            # minute (day) - needed to reach the inside of gaps whose edge is not on a minute boundary (LMT changes)
+            eff_r = False
+            base = None
+            for probe in ([w // (60 * US) * 60 * US + s_ * US for s_ in (59, 0, 30, 45, 15)] if path == "set_sub" else
+                          [w // DAY_US * DAY_US + h_ * 3600 * US for h_ in (12, 6, 18, 23, 3)]):
+                if isinstance(zn, str):
+                    e_, c_ = expect(zone, probe, f, False)
+                    if c_ != "once" or e_[0] != "value":
+                        continue
+                base = DateTime(*us_to_fields(probe), tzinfo=tz, fold=f)
+                break
+            if base is None:
+                return
+            ret = base.set(second=F[5], microsecond=F[6]) if path == "set_sub" else base.set(hour=F[3], minute=F[4], second=F[5], microsecond=F[6])
         elif path == "replace":
             eff_r = False
             base = DateTime(2001, 2, 3, 4, 5, 6, 7, tzinfo=tz, fold=f)
@@ -359,7 +375,7 @@ def run(M, c):
             ret = P.instance(dt.datetime(*F, fold=f), tz=tz)
     except (AmbiguousTime, NonExistingTime) as e:
         exc = e
-    if path in ("at", "on", "parse", "local", "set", "instance_naive", "replace_fold"):
+    if path in ("at", "on", "parse", "local", "set", "instance_naive", "replace_fold", "set_sub", "set_time"):
         judge_result(M, "boundary", zone, w, eff_f, eff_r, ret=ret, exc=exc, sigp="boundary-" + path)
         if ret is not None and (type(ret) is not DateTime or judge.zkind(ret) != zone):
             M.check("boundary", False, f"C02/boundary-{path}:type-or-zone", "result type/zone", got=judge.desc(ret))
